@@ -32,12 +32,49 @@ def matches(finding, info):
     return True
 
 
-def run_replay(binary, scenarios, timeout=600):
-    """run a batch of scenarios through the replay binary; returns list of outputs"""
-    p = subprocess.run([binary], input=json.dumps(scenarios), capture_output=True, text=True, timeout=timeout)
-    if p.returncode != 0:
-        raise RuntimeError('replay binary failed: ' + p.stderr[-2000:])
-    return json.loads(p.stdout)
+def _replay_env():
+    env = dict(os.environ)
+    # scratch SQLite databases of the replay live in memory-backed storage when available (removed by the binary)
+    if os.path.isdir('/dev/shm') and os.access('/dev/shm', os.W_OK):
+        env['TMPDIR'] = '/dev/shm'
+    return env
+
+
+def run_replay(binary, scenarios, timeout=900):
+    """run a batch of scenarios through the replay binary; returns list of outputs (large batches in parallel)"""
+    n = len(scenarios)
+    if n <= 64:
+        p = subprocess.run([binary], input=json.dumps(scenarios), capture_output=True, text=True, timeout=timeout, env=_replay_env())
+        if p.returncode != 0:
+            raise RuntimeError('replay binary failed: ' + p.stderr[-2000:])
+        return json.loads(p.stdout)
+    k = min(os.cpu_count() or 4, 16, (n + 63) // 64)
+    size = (n + k - 1) // k
+    chunks = [scenarios[i:i + size] for i in range(0, n, size)]
+    procs = []
+    for ch in chunks:
+        p = subprocess.Popen([binary], stdin=subprocess.PIPE, stdout=subprocess.PIPE, stderr=subprocess.PIPE, text=True, env=_replay_env())
+        procs.append((p, ch))
+    import threading
+    outs = [None] * len(procs)
+
+    def feed(i, p, ch):
+        o, e = p.communicate(json.dumps(ch), timeout=timeout)
+        if p.returncode != 0:
+            outs[i] = RuntimeError('replay binary failed: ' + e[-2000:])
+        else:
+            outs[i] = json.loads(o)
+    ths = [threading.Thread(target=feed, args=(i, p, ch)) for i, (p, ch) in enumerate(procs)]
+    for t in ths:
+        t.start()
+    for t in ths:
+        t.join()
+    res = []
+    for o in outs:
+        if isinstance(o, Exception) or o is None:
+            raise o or RuntimeError('replay produced no output')
+        res.extend(o)
+    return res
 
 
 def write_evidence(prop, ev):
@@ -169,10 +206,18 @@ def run_check(prop, tier, seed, workers):
     if binary and hasattr(mod, 'validate_samples'):
         try:
             todo = [s for s in samples if isinstance(s, dict) and s.get('scenario')]
+            skey = getattr(mod, 'SAMPLE_KEY', None)
+            if skey:
+                seen_k, uniq = set(), []
+                for s in todo:
+                    if s.get(skey) not in seen_k:
+                        seen_k.add(s.get(skey))
+                        uniq.append(s)
+                todo = uniq
             # VERIF_SEED rotates which samples are replayed
             if todo:
                 k = seed % len(todo)
-                todo = (todo[k:] + todo[:k])[:24]
+                todo = (todo[k:] + todo[:k])[:getattr(mod, 'MAX_REPLAYED_SAMPLES', 24)]
                 outs = run_replay(binary, [s['scenario'] for s in todo])
                 for s, o in zip(todo, outs):
                     okv, detail = mod.validate_samples(s, o)
@@ -185,6 +230,11 @@ def run_check(prop, tier, seed, workers):
                         okv, detail = mod.validate_samples(s, o)
                     if okv:
                         validated += 1
+                    elif getattr(mod, 'SAMPLE_FAILURE_IS_VIOLATION', False):
+                        # the judgement was made on the compiled crate itself (e.g. two real storage backends disagree)
+                        confirmed.append({'label': 'the compiled crate violates the property on a replayed path', 'info': {'class': 'replayed-path', 'detail': detail},
+                                          'witness': {'scenario': s['scenario']}, 'config': 'replay',
+                                          'replay': {'scenario': s['scenario'], 'violated_on_real_code': True, 'detail': detail}})
                     else:
                         mismatch.append({'scenario': s['scenario'], 'predicted': s.get('predicted'), 'detail': detail})
         except Exception as e:  # noqa
